@@ -3,8 +3,10 @@ import Logrange.Model.WireRT
 /-!
 # `partition.Service.Write` and `iwrapper` — C01
 
-* `IW` is `iwrapper`'s `minTs/maxTs`: every `Get` re-marshals the current event and re-applies min/max (`read` is
-  never set), `0` means "unset", `resetMinMaxTs` is never called — the values accumulate over the whole batch.
+* `IW` is `iwrapper`'s `minTs/maxTs/tsSet`: every `Get` re-marshals the current event and re-applies min/max (`read` is
+  never set); the values are (re)initialised while `tsSet` is false and `Get` sets it (regenerated fact
+  `Generated.C01.iwrapperUnsetIsFlag`; before /repo commit 6624754 the value 0 meant "unset" — the model follows whichever
+  form the source has); `resetMinMaxTs` is never called — the hull accumulates over the whole batch.
 * `serviceWrite` is the loop of `Service.Write`: `jrnl.Write`; `n > 0 ⇒ onWriteCIndex(pos.Idx-n, pos.Idx-1,
   {pos.CId, minTs, maxTs})`, the first such iteration fixes `StartPos = (pos.CId, pos.Idx-n)`, every one sets
   `EndPos = pos`; an error ends the loop (it is reported only if nothing was written in that iteration); otherwise
@@ -16,13 +18,16 @@ open Logrange.JournalW
 structure IW where
   minTs : Int := 0
   maxTs : Int := 0
+  tsSet : Bool := false
 deriving DecidableEq, Repr, Inhabited
 
 /-- the min/max update of `iwrapper.Get` -/
 def IW.see (w : IW) (r : Rec) : IW :=
-  let mn := if w.minTs > r.ts ∨ w.minTs = 0 then r.ts else w.minTs
-  let mx := if w.maxTs < r.ts ∨ w.maxTs = 0 then r.ts else w.maxTs
-  ⟨mn, mx⟩
+  let unsetMin := if Generated.C01.iwrapperUnsetIsFlag then w.tsSet = false else w.minTs = 0
+  let unsetMax := if Generated.C01.iwrapperUnsetIsFlag then w.tsSet = false else w.maxTs = 0
+  let mn := if w.minTs > r.ts ∨ unsetMin then r.ts else w.minTs
+  let mx := if w.maxTs < r.ts ∨ unsetMax then r.ts else w.maxTs
+  ⟨mn, mx, true⟩
 
 /-- one `TsIndexer.OnWrite(src, first, last, RecordsInfo{cid, minTs, maxTs})` -/
 structure IndexCall where
